@@ -274,6 +274,28 @@ func combos() []combo {
 				return &strategy.SplitStrategy{BuyStrategy: s[0], SellStrategy: s[1]}
 			}, model: modelSplit},
 	)
+	// one strategy OBJECT listed more than once (a vote in which it counts twice, one strategy for both sides of a split):
+	// every listing is a member of its own
+	rep := func(subs [][]strategy.Action, ix ...int) [][]strategy.Action {
+		out := make([][]strategy.Action, len(ix))
+		for i, j := range ix {
+			out[i] = subs[j]
+		}
+		return out
+	}
+	cs = append(cs,
+		combo{name: "And{x,x}", k: 1, build: func(s []strategy.Strategy) strategy.Strategy { return strategy.NewAndStrategy("and", s[0], s[0]) },
+			model: func(subs [][]strategy.Action, cl []float64) []strategy.Action { return modelAnd(rep(subs, 0, 0), cl) }},
+		combo{name: "Or{x,x}", k: 1, build: func(s []strategy.Strategy) strategy.Strategy { return strategy.NewOrStrategy("or", s[0], s[0]) },
+			model: func(subs [][]strategy.Action, cl []float64) []strategy.Action { return modelOr(rep(subs, 0, 0), cl) }},
+		combo{name: "And{x,y,x}", k: 2, build: func(s []strategy.Strategy) strategy.Strategy { return strategy.NewAndStrategy("and", s[0], s[1], s[0]) },
+			model: func(subs [][]strategy.Action, cl []float64) []strategy.Action { return modelAnd(rep(subs, 0, 1, 0), cl) }},
+		combo{name: "Majority{x,x,y}", k: 2, build: func(s []strategy.Strategy) strategy.Strategy {
+			return strategy.NewMajorityStrategyWith("maj", []strategy.Strategy{s[0], s[0], s[1]})
+		}, model: func(subs [][]strategy.Action, cl []float64) []strategy.Action { return modelMajority(rep(subs, 0, 0, 1), cl) }},
+		combo{name: "Split{x,x}", k: 1, build: func(s []strategy.Strategy) strategy.Strategy { return strategy.NewSplitStrategy(s[0], s[0]) },
+			model: func(subs [][]strategy.Action, cl []float64) []strategy.Action { return modelSplit(rep(subs, 0, 0), cl) }},
+	)
 	// the factories that build every ordered pair (used by the backtest command line tool): the strategy at index j
 	// combines the j-th ordered pair (first, second) of distinct inputs
 	pairs3 := [][2]int{{0, 1}, {0, 2}, {1, 0}, {1, 2}, {2, 0}, {2, 1}}
@@ -504,7 +526,7 @@ func macdRsiUnit(c *core.Ctx, p [4]int, L int) {
 func init() {
 	core.Register(&core.Check{
 		ID:     "C07",
-		Rule:   "combinators over scripted stub strategies: every tuple of action words over {Sell,Hold,Buy} (k=1: length<=7, k=2: <=5, k=3: <=3 quick / 4 thorough, k=4: <=2 / 3, k=5,6: 1 / 2) and, for the price-dependent decorators, every closing word over {1,2,4,3} of the same length (<=5), stop-loss percentages {0,0.25,0.5}, decorator nesting depth 2, group strategies nested in group strategies; each case is one execution of the real combinator under the controlled scheduler; oracle: documented position-wise combination / reference state machine, plus the No-Loss and Stop-Loss safety invariants evaluated on the whole history; MACD-RSI against its real sub-strategies run separately; states = cases, non-trivial = distinct emitted action words per unit",
+		Rule:   "combinators over scripted stub strategies: every tuple of action words over {Sell,Hold,Buy} (k=1: length<=7, k=2: <=5, k=3: <=3 quick / 4 thorough, k=4: <=2 / 3, k=5,6: 1 / 2) and, for the price-dependent decorators, every closing word over {1,2,4,3} of the same length (<=5), stop-loss percentages {0,0.25,0.5}, decorator nesting depth 2, group strategies nested in group strategies, one strategy object listed twice (And{x,x}, Or{x,x}, And{x,y,x}, Majority{x,x,y}, Split{x,x}); each case is one execution of the real combinator under the controlled scheduler; oracle: documented position-wise combination / reference state machine, plus the No-Loss and Stop-Loss safety invariants evaluated on the whole history; MACD-RSI against its real sub-strategies run separately; states = cases, non-trivial = distinct emitted action words per unit",
 		Assume: []string{"stub strategies emit exactly one scripted action per snapshot (equal lengths); closings positive", "percentage is a fraction as the code documents (closing*(1-Percentage))"},
 		Units: func(tier string) []core.Unit {
 			var us []core.Unit
